@@ -16,12 +16,14 @@ type Case struct {
 	Sig    *TypeD   `json:"sig,omitempty"`    // function type of the callee
 	Body   *Body    `json:"body,omitempty"`   // behaviour of the callee
 	Method string   `json:"method,omitempty"` // meth: name of the fixed host method; receiver form in Recv
-	Recv   string   `json:"recv,omitempty"`   // meth: ptr | val | iface | mvalue (method value) | embedded
+	Recv   string   `json:"recv,omitempty"`   // meth: ptr | val | iface | mvalue (method value) | embedded | sptr (`&hp.Counter{…}` made by the script) | sptrmv (method value of it)
+	Rebind bool     `json:"rebind,omitempty"` // meth: the receiver variable is assigned another value after the method value / defer statement was evaluated, before the call runs
 	Args   []*Val   `json:"args,omitempty"`   // one per argument written at the call (variadic elements are separate unless Spread)
 	Forms  []string `json:"forms,omitempty"`  // per argument: var | lit | const (untyped constant / nil)
 	Spread bool     `json:"spread,omitempty"` // the last argument is a slice passed with `...`
 	ArgSrc string   `json:"argsrc,omitempty"` // "" | scriptcall | hostcall: all arguments come from one nested call
-	Ctx    string   `json:"ctx,omitempty"`    // define | assign | blank | return | retpos | nested | stmt | cond | expr | defer
+	Ctx    string   `json:"ctx,omitempty"`    // define | assign | blank | return | retpos | nested | stmt | cond | expr | defer | go
+	Callee string   `json:"callee,omitempty"` // s2h: "" (hp.F(…)) | fnvar (`fv := hp.F; fv(…)`) | fntyped (`var fv func(…) … = hp.F; fv(…)`: the call goes through `call`)
 	Blank  []bool   `json:"blank,omitempty"`  // ctx blank: which results are assigned to _
 	Via    string   `json:"via,omitempty"`    // h2s: eval-qual | eval-plain | symbols
 	How    string   `json:"how,omitempty"`    // h2s: call | callslice | iface | typed
@@ -43,12 +45,12 @@ type Case struct {
 }
 
 // defaultFeatures are inside the domain (no divergence on the unchanged tree).
-var defaultFeatures = map[string]bool{"callg": true}
+// builtin-in-multi-return: `return p, len(m), q` written inline (F23 / F07-1, repaired by b3c279d: kept in the default stream).
+var defaultFeatures = map[string]bool{"callg": true, "builtin-in-multi-return": true}
 
 // gatedFeatures are the generator features that known findings depend on; each is exercised by a separate
 // out-of-domain stream.
 var gatedFeatures = []string{
-	"builtin-in-multi-return", // F23
 	"script-dyn-in-host-iface",
 	"methodful-in-empty",
 	"script-iface",
@@ -292,11 +294,12 @@ func (g *genCfg) genCall(dir string, id string) *Case {
 		c.Ctx = g.genCtx(c.Sig)
 	}
 	g.genArgs(c)
-	if c.Ctx == "defer" && !g.feat["defer-func-arg"] {
-		for _, a := range c.Args {
-			if anyVal(a, func(v *Val) bool { return v.Fn != nil }) {
-				c.Ctx = "stmt" // a deferred call that reaches a function literal dead-locks (C06: F06-2)
-			}
+	if dir == "s2h" && c.Sig.hostExpressible() {
+		switch r.Intn(8) {
+		case 0:
+			c.Callee = "fnvar"
+		case 1:
+			c.Callee = "fntyped"
 		}
 	}
 	if dir == "s2h" && !c.Spread && len(c.Sig.In) > 0 && r.Intn(10) == 0 && len(c.Args) == len(c.Sig.In) {
@@ -335,9 +338,10 @@ func (g *genCfg) genCall(dir string, id string) *Case {
 func (g *genCfg) genCtx(sig *TypeD) string {
 	r := g.rng
 	n := len(sig.Out)
-	opts := []string{"stmt", "defer"}
+	opts := []string{"stmt", "defer", "go"}
 	if n >= 1 {
-		opts = []string{"define", "define", "assign", "blank", "return", "nested", "stmt", "defer"}
+		opts = []string{"define", "define", "define", "assign", "assign", "blank", "blank", "return", "return", "nested", "nested", "stmt", "stmt",
+			"defer", "defer", "go"}
 	}
 	if n == 1 {
 		opts = append(opts, "retpos", "define")
@@ -367,13 +371,22 @@ func (c *Counter) rec(name string, args ...interface{}) {
 	}
 }
 
-func (c *Counter) Add(n int) int        { c.rec("Add", n); c.N += n; return c.N }
-func (c Counter) Get() int              { return c.N }
+// fin tells a script waiting after `go c.M(…)` that the method has returned.
+func (c *Counter) fin() {
+	if c.env != nil {
+		c.env.signal()
+	}
+}
+
+func (c *Counter) Add(n int) int { defer c.fin(); c.rec("Add", n); c.N += n; return c.N }
+func (c Counter) Get() int       { defer (&c).fin(); return c.N }
 func (c Counter) Scale(f float32, k uint8) float64 {
+	defer (&c).fin()
 	(&c).rec("Scale", f, k)
 	return float64(f)*float64(k) + float64(c.N)
 }
 func (c *Counter) AddAll(ns ...int) int {
+	defer c.fin()
 	c.rec("AddAll", ns)
 	for _, n := range ns {
 		c.N += n
@@ -381,29 +394,35 @@ func (c *Counter) AddAll(ns ...int) int {
 	return c.N
 }
 func (c *Counter) Fmt(f string, xs ...int8) string {
+	defer c.fin()
 	c.rec("Fmt", f, xs)
-	return fmt.Sprint(f, len(xs), c.N)
+	return fmt.Sprint(f, len(xs), xs == nil, c.N)
 }
 func (c *Counter) Mix(a int8, b float64, s string, rest ...uint16) string {
+	defer c.fin()
 	c.rec("Mix", a, b, s, rest)
-	return fmt.Sprint(a, b, s, rest)
+	return fmt.Sprint(a, b, s, rest, rest == nil)
 }
 func (c *Counter) Apply(f func(int) int) int {
+	defer c.fin()
 	c.N = f(c.N)
 	return c.N
 }
 func (c *Counter) Show(s fmt.Stringer) string {
+	defer c.fin()
 	if s == nil {
 		return "<nil>"
 	}
 	return "show:" + s.String()
 }
 func (c *Counter) Any(v interface{}, vs ...interface{}) int {
+	defer c.fin()
 	c.rec("Any", v, vs)
 	return 1 + len(vs)
 }
-func (c *Counter) Pair() (int, string) { return c.N, fmt.Sprint("n=", c.N) }
+func (c *Counter) Pair() (int, string) { defer c.fin(); return c.N, fmt.Sprint("n=", c.N) }
 func (c *Counter) Err(fail bool) error {
+	defer c.fin()
 	c.rec("Err", fail)
 	if fail {
 		return &hostErr{"failed"}
@@ -437,16 +456,16 @@ func (g *genCfg) genMethodCase(id string) *Case {
 		outs = append(outs, typeOfRT(m.Type.Out(i)))
 	}
 	c.Sig = funcType(ins, outs, m.Type.IsVariadic())
-	recvs := []string{"ptr", "ptr", "val", "mvalue", "embedded"}
+	recvs := []string{"ptr", "ptr", "val", "mvalue", "embedded", "sptr"}
 	if c.Method == "String" {
 		recvs = append(recvs, "iface", "iface", "iface")
 	}
 	c.Recv = recvs[r.Intn(len(recvs))]
 	c.Ctx = g.genCtx(c.Sig)
-	if c.Ctx == "defer" {
-		c.Ctx = "stmt"
-	}
 	g.genArgs(c)
+	if c.Ctx == "go" && (c.Method == "String" || c.Recv == "sptr") {
+		c.Ctx = "stmt" // String is also called when values are rendered: it does not signal
+	}
 	for k, a := range c.Args {
 		if a.T.Kind == KFunc && a.Nil {
 			c.Args[k] = &Val{T: a.T, Fn: g.genBody(a.T, 1, false)}
@@ -650,18 +669,6 @@ func isHostIfaceT(t *TypeD) bool  { return t.isHostIface() }
 func isEmptyIfaceT(t *TypeD) bool { return t.isEmptyIface() }
 
 var classes = []classT{
-	{"defer-spread", func(c *Case) bool { return c.Ctx == "defer" && c.Spread }},
-	{"defer-func-arg", func(c *Case) bool {
-		if c.Ctx != "defer" {
-			return false
-		}
-		for _, a := range c.Args {
-			if anyVal(a, func(v *Val) bool { return v.Fn != nil }) {
-				return true
-			}
-		}
-		return false
-	}},
 	{"method-value-variadic", func(c *Case) bool {
 		if c.Dir != "meth" || c.Recv != "mvalue" || !c.Sig.Variadic || len(c.Sig.In) < 2 {
 			return false
@@ -669,6 +676,26 @@ var classes = []classT{
 		for k, f := range c.Forms {
 			// constants (untyped, or conversions of constants to a basic type) are converted to the parameter type
 			if (f == "const" || f == "lit") && paramTypeOf(c, k).Kind == KBasic {
+				return true
+			}
+		}
+		return false
+	}},
+	{"method-value-script-pointer", func(c *Case) bool { return c.Dir == "meth" && c.Recv == "sptrmv" }},
+	{"host-recv-rebound", func(c *Case) bool { return c.Dir == "meth" && c.Rebind }},
+	{"spread-nil-literal", func(c *Case) bool {
+		n := len(c.Args)
+		return (c.Dir == "s2h" || c.Dir == "meth") && c.Spread && n > 0 && c.Forms[n-1] == "const" && c.Args[n-1].Nil
+	}},
+	{"spread-via-func-value", func(c *Case) bool {
+		// `fv(cb, xs...)` where fv is a variable / parameter of a script-written function type holding a host function: `call`
+		// passes every argument raw when the call has an ellipsis; a fixed argument that needs preparation does not get it
+		if c.Dir != "s2h" || !viaCall(c) || !c.Spread || c.ArgSrc != "" {
+			return false
+		}
+		for k := 0; k < len(c.Args)-1; k++ {
+			a := c.Args[k]
+			if c.Forms[k] == "decl" || a.T.isHostIface() && a.Dyn != nil && a.Dyn.T.Decl == "script" {
 				return true
 			}
 		}
@@ -682,19 +709,6 @@ var classes = []classT{
 	}},
 	{"eval-qualified-var", func(c *Case) bool { return c.Dir == "var" && c.Access == "evalname" }},
 	{"var-assign-direct", func(c *Case) bool { return c.Dir == "var" && c.Direct }},
-	{"builtin-in-multi-return", func(c *Case) bool {
-		for _, b := range bodiesOf(c) {
-			if !b.Direct || len(b.Rets) < 2 {
-				continue
-			}
-			for j, e := range b.Rets {
-				if j >= 1 && e.Op == "len" {
-					return true
-				}
-			}
-		}
-		return false
-	}},
 	{"script-iface", func(c *Case) bool {
 		for _, t := range typesOf(c) {
 			if t.any(func(x *TypeD, _ int) bool { return x.isScriptIface() }) {
@@ -774,9 +788,11 @@ var classes = []classT{
 		}
 		return false
 	}},
-	{"variadic-empty", func(c *Case) bool {
-		return (c.Dir == "s2h" || c.Dir == "meth") && c.Sig.Variadic && !c.Spread && len(c.Args) == len(c.Sig.In)-1 && c.ArgSrc == ""
-	}},
+}
+
+// viaCall: the call is compiled by `call` (the callee expression has a script-written function type), not by callBin.
+func viaCall(c *Case) bool {
+	return c.Callee == "fntyped" || c.Callee == "fnvar" && (c.Ctx == "return" || c.Ctx == "retpos")
 }
 
 func classOf(c *Case) string {
